@@ -782,6 +782,9 @@ func (x *fnExec) doLoop(l *core.Loop, entry []*State) []edgeState {
 					}
 					// growth rate relative to an integer loop counter: L - L0 <= k*(φ - φ0), L - L0 >= k*(φ - φ0)
 					for _, p := range phis {
+						if len(arrayLens(cc.T)) == 0 {
+							break // only for an index kept beside its array (a cursor into a buffer)
+						}
 						pv, ok1 := st.env[p].(IntV)
 						p0, ok2 := e.env[p].(IntV)
 						if !ok1 || !ok2 {
@@ -921,6 +924,9 @@ func (x *fnExec) doLoop(l *core.Loop, entry []*State) []edgeState {
 							}
 						}
 						for _, p := range phis {
+							if len(arrayLens(cc.T)) == 0 {
+								break
+							}
 							p0, ok2 := e.env[p].(IntV)
 							if _, ok1 := st.env[p].(IntV); !ok1 || !ok2 {
 								continue
